@@ -121,6 +121,11 @@ func (c *Collection) Update(id string, msg proto.Message, opts ...WriteOption) (
 				if writeRequest.idCallback != nil {
 					writeRequest.idCallback(id)
 				}
+				// like every other id given to the collection, the generated id is stored under the
+				// id the interceptor maps it to; genID already checked that one is unused
+				if c.idInterceptor != nil {
+					id = c.idInterceptor(id)
+				}
 			}
 
 			val, exists := c.byId[id]
